@@ -9,6 +9,7 @@ ASSUMPTIONS = [
     "oracles (on the implementation's canonical object graphs): a new instance shares nothing with anything that existed before (class defaults, constructor arguments, peers) except through do_not_copy attributes; class-level default objects are never reachable from any other root; `same` assertions: the attribute after reset_<a> / reset / del (in place or on a copy) equals the attribute of a freshly constructed instance of the same class",
     "the reset histories also report oracle bit 4 (a copy produced by reset_<a>() / reset() shares a mutable object with the instance it was made from): two instances sharing state is a violation of 'nor any other instance'",
     "every way of declaring a default that the class grammar of inst_common renders: literal, mutable literal, Attr(default=), Attr(default_factory=), dataclasses.field(default=/default_factory=), override (int and mutable list/dict) in a spec subclass, override in a plain subclass (K4..K7 of the plain-constructor histories; also plain_subclass_probe on the implementation only)",
+    "do_not_copy per spec class: a spec subclass's own decorator decides for the attributes it inherits, re-defaulted or not (own_dnc_histories: K3 / K8 / K9 with own lists differing from K2's, through the model and the Coq oracles; harness/c08_probe.py run_own_dnc on the implementation only: Attr(default=) re-defaults, KeyedList, a spec class above a plain one)",
     "plain (undecorated) subclasses as constructed classes: K4 plain over K2, K5 plain over K4, K6 plain over the spec subclass K3, K7 plain over K6 - correspondence and oracles through the model (c_owner / c_overrides), the theorems keep the own_metadata guard; KeyedList / KeyedSet arguments and a spec class above a plain one only in the implementation-level probe harness/c08_probe.py (oracle: the property statement on object identities)",
 ]
 GENS = [
@@ -120,6 +121,27 @@ def plain_ctor_probe(chk, extra):
     extra["plain_ctor_probe"] = {"cases": r["cases"], "failing": len(r["failures"])}
 
 
+def own_dnc_probe(chk, extra):
+    """implementation-only (harness/c08_probe.py run_own_dnc): do_not_copy is decided by each spec class's
+    OWN decorator, also for inherited attributes the subclass re-defaults (bare class attribute or
+    Attr(default=...)), restates or does not restate; plain and further spec subclasses below; both
+    directions; lazy and eager; list / dict / KeyedList of keyed spec instances; peers from one argument,
+    copies by reset_<other>() / with_<other>() / update / transform / deepcopy, in-place mutation through
+    every holder, del / reset_<a> against a new instance"""
+    import c08_probe
+    r = c08_probe.run_own_dnc()
+    seen = set()
+    for f in r["failures"]:
+        k = (f["class"], f["what"].split("(")[0])
+        if k in seen or len(seen) >= 3:
+            continue
+        seen.add(k)
+        chk.violation("C08 violated by the implementation: %s(%s=<argument>) (its decorator lists do_not_copy=%s): %s"
+                      % (f["class"], f["attr"], f["declared_do_not_copy"], f["what"]), dict(f, kind="own-dnc"),
+                      sig={"kind": "own-dnc"})
+    extra["own_dnc_probe"] = {"cases": r["cases"], "failing": len(r["failures"])}
+
+
 def targeted(chk, cases, bad, extra):
     n = 220 if chk.tier == "quick" else 4500
     n_ops = 6 if chk.tier == "quick" else 9
@@ -136,12 +158,18 @@ def targeted(chk, cases, bad, extra):
             if op[0] == "construct" and op[1] >= 4:
                 hist["K%d" % op[1]] = hist.get("K%d" % op[1], 0) + 1
     extra["plain_ctor_histories"]["constructed_plain_classes"] = hist
+    # a spec subclass's own do_not_copy list for inherited (re-defaulted) attributes (seeded change C08-F2)
+    n_od = 60 if chk.tier == "quick" else 1200
+    od = [c08_gen.sanitize(c08_gen.gen_case_own_dnc(chk.rng, 5 if chk.tier == "quick" else 8)) for _ in range(n_od)]
+    c02_gen.report(chk, "C08", 32 | 128 | 4, od, extra, "own_dnc_histories", sig_fn=c08_gen.same_signature)
+    extra["own_dnc_histories"]["shapes"] = c08_gen.own_dnc_shapes(od)
     plain_subclass_probe(chk, extra)
     dnc_family_ctor_probe(chk, extra)
     plain_ctor_probe(chk, extra)
+    own_dnc_probe(chk, extra)
     import c08_sentinel
     c08_sentinel.probe(chk, extra)
-    extra["rule"] = extra.get("rule", "") + "; plain-constructor histories = peers of plain / spec classes built from the same mutable argument objects, in-place mutation through every holder, del / reset, further peers; reset histories = construct, in-place mutation, del / reset_<a> / reset (in place or copy), fresh instance of the same class, `same` assertion per reset attribute"
+    extra["rule"] = extra.get("rule", "") + "; own-do_not_copy histories = spec subclasses with their own do_not_copy list (differing from the parent's) that re-default inherited mutable attributes, plain / spec classes below them and a merely inheriting sibling: peers from the same mutable argument objects, copies by reset_<other>() / with_<other>() / deepcopy, in-place mutation through every holder, del / reset_<a> with `same` assertions; plain-constructor histories = peers of plain / spec classes built from the same mutable argument objects, in-place mutation through every holder, del / reset, further peers; reset histories = construct, in-place mutation, del / reset_<a> / reset (in place or copy), fresh instance of the same class, `same` assertion per reset attribute"
 
 
 def main(tier, replay=None):
@@ -150,7 +178,8 @@ def main(tier, replay=None):
         r = json.load(open(replay))
         probes = {"plain-subclass": (plain_subclass_probe, "plain_subclass_probe"),
                   "dnc-family-ctor": (dnc_family_ctor_probe, "dnc_family_ctor_probe"),
-                  "plain-ctor": (plain_ctor_probe, "plain_ctor_probe")}
+                  "plain-ctor": (plain_ctor_probe, "plain_ctor_probe"),
+                  "own-dnc": (own_dnc_probe, "own_dnc_probe")}
         if r.get("kind") in probes:
             from common import Check
             fn, key = probes[r["kind"]]
